@@ -11,6 +11,9 @@ use swc_core::{
     plugin::errors::HANDLER,
 };
 
+/// Stands for `any` / `unknown` among the inferred runtime types: no check must be emitted at all.
+const ANY_TYPE: &str = "*";
+
 enum RefinedTsTypeElement {
     Property(TsPropertySignature),
     GetterSignature(TsGetterSignature),
@@ -291,31 +294,39 @@ where
                     let mut props = vec![
                         PropOrSpread::Prop(Box::new(Prop::KeyValue(KeyValueProp {
                             key: PropName::Ident(quote_ident!("type")),
-                            value: Box::new(if ir.types.len() == 1 {
-                                if let Some(ty) = ir.types.pop().unwrap() {
-                                    Expr::Ident(quote_ident!(ty).into())
-                                } else {
+                            value: Box::new(
+                                if ir.types.iter().any(|ty| ty.as_deref() == Some(ANY_TYPE)) {
+                                    // every value is allowed: `null` next to a constructor would
+                                    // only allow the null value
                                     Expr::Lit(Lit::Null(Null { span: DUMMY_SP }))
-                                }
-                            } else {
-                                Expr::Array(ArrayLit {
-                                    elems: ir
-                                        .types
-                                        .into_iter()
-                                        .map(|ty| {
-                                            Some(ExprOrSpread {
-                                                expr: Box::new(if let Some(ty) = ty {
-                                                    Expr::Ident(quote_ident!(ty).into())
-                                                } else {
-                                                    Expr::Lit(Lit::Null(Null { span: DUMMY_SP }))
-                                                }),
-                                                spread: None,
+                                } else if ir.types.len() == 1 {
+                                    if let Some(ty) = ir.types.pop().unwrap() {
+                                        Expr::Ident(quote_ident!(ty).into())
+                                    } else {
+                                        Expr::Lit(Lit::Null(Null { span: DUMMY_SP }))
+                                    }
+                                } else {
+                                    Expr::Array(ArrayLit {
+                                        elems: ir
+                                            .types
+                                            .into_iter()
+                                            .map(|ty| {
+                                                Some(ExprOrSpread {
+                                                    expr: Box::new(if let Some(ty) = ty {
+                                                        Expr::Ident(quote_ident!(ty).into())
+                                                    } else {
+                                                        Expr::Lit(Lit::Null(Null {
+                                                            span: DUMMY_SP,
+                                                        }))
+                                                    }),
+                                                    spread: None,
+                                                })
                                             })
-                                        })
-                                        .collect(),
-                                    span: DUMMY_SP,
-                                })
-                            }),
+                                            .collect(),
+                                        span: DUMMY_SP,
+                                    })
+                                },
+                            ),
                         }))),
                         PropOrSpread::Prop(Box::new(Prop::KeyValue(KeyValueProp {
                             key: PropName::Ident(quote_ident!("required")),
@@ -1000,6 +1011,9 @@ where
                 }
                 TsKeywordTypeKind::TsSymbolKeyword => {
                     runtime_types.insert(Some(atom!("Symbol")));
+                }
+                TsKeywordTypeKind::TsAnyKeyword | TsKeywordTypeKind::TsUnknownKeyword => {
+                    runtime_types.insert(Some(Atom::from(ANY_TYPE)));
                 }
                 _ => {
                     runtime_types.insert(None);
